@@ -101,7 +101,8 @@ impl Rule {
             }
             Rule::Snake => lower.join("_"),
             Rule::Screaming => lower.join("_").to_uppercase(),
-            Rule::Kebab => lower.join("-"),
+            // kebab-case has no underscores: the ones inside a word become dashes too
+            Rule::Kebab => lower.join("_").replace('_', "-"),
         }
     }
 }
